@@ -16,7 +16,7 @@ from .smt import (T, INT, BOOL, STR, IntV, BoolV, StrV, TRUE, FALSE, And, Or, No
                   At, Contains, PrefixOf, SuffixOf, Max, Min)
 from .vals import (Undecided, V, VInt, VBool, VStr, VNone, NONE, VVal, VSeq, VTuple,
                    VRef, VFunc, VPy, VBound, VExc, Raised, HList, HPyList, HDict,
-                   HSet, HInst, HObjList, HMap, parse_type, sort_of, wrap)
+                   HSet, HInst, HObjList, HMap, HRecSeq, HIdxList, HOpaque, parse_type, sort_of, wrap)
 
 WS_CHARS = ' \t\n\r\x0b\x0c\x1c\x1d\x1e\x1f\x85\xa0'
 
@@ -36,6 +36,10 @@ def func(obj):
         FUNCS[obj] = f
         return f
     return deco
+
+
+def NOOP_CALLABLE(*args, **kwargs):
+    """Stands for a logging callback: no effect on the verified state."""
 
 
 def install(eng):
@@ -361,6 +365,9 @@ def _list_obj(eng, v, st):
 def list_append(eng, args, kwargs, st, node):
     xs, x = args
     o = st.heap[xs.loc]
+    from . import reclists
+    if reclists.append(eng, xs, x, st, node):
+        return [(NONE, st)]
     if isinstance(o, HObjList):
         if not (isinstance(x, VExc) and issubclass(x.cls, o.cls)):
             raise Undecided('append of %r to a list of %s objects' % (x, o.cls.__name__), node)
@@ -614,6 +621,8 @@ def m_len(eng, args, kwargs, st, node):
         v = v.val
     if isinstance(v, VStr):
         return [(VInt(Len(v.t)), st)]
+    if type(v).__name__ == 'VEmptyList':
+        return [(VInt(IntV(0)), st)]
     if isinstance(v, VTuple):
         return [(VInt(IntV(len(v.items))), st)]
     if isinstance(v, VRef):
@@ -626,6 +635,10 @@ def m_len(eng, args, kwargs, st, node):
             return [(VInt(Len(o.seq)), st)]
         if isinstance(o, HObjList):
             return [(VInt(o.n), st)]
+        if isinstance(o, HRecSeq):
+            return [(VInt(o.n), st)]
+        if isinstance(o, HIdxList):
+            return [(VInt(Len(o.idx)), st)]
         if isinstance(o, HMap):
             eng.trusted_used.add('builtin:len(dict) (uninterpreted cardinality; 0 iff no key present)')
             c = eng.model_app('py_mapcard', [o.present], INT)
@@ -682,6 +695,21 @@ def m_isinstance(eng, args, kwargs, st, node):
     if isinstance(v, VPy):
         return [(VBool(BoolV(isinstance(v.obj, classes))), st)]
     raise Undecided('isinstance(%r, %r)' % (v, cls), node)
+
+
+@func(NOOP_CALLABLE)
+def m_noop(eng, args, kwargs, st, node):
+    eng.trusted_used.add('callback:_log (a logging callback has no effect on the verified state)')
+    return [(NONE, st)]
+
+
+import time as _time
+
+
+@func(_time.time)
+def m_time(eng, args, kwargs, st, node):
+    eng.trusted_used.add('stdlib:time.time (an opaque number; nothing verified depends on it)')
+    return [(VVal(eng.ctx.fresh('now', sort_of(('val',)))), st)]
 
 
 @func(print)
@@ -829,6 +857,41 @@ def _regex_key(eng, pat, flags, st):
     return p, int(f) & ~_re.UNICODE
 
 
+def regex_pred(kind, pattern, flags):
+    """The uninterpreted predicate 're.<kind>(pattern, s, flags) is not None' as a function symbol
+    String -> Bool, one per (kind, pattern, flags): code and specification meet on the same symbol
+    exactly when they use the same pattern, flags and matching mode."""
+    import hashlib
+    h = hashlib.sha1(('%s|%r|%d' % (kind, pattern, int(flags))).encode()).hexdigest()[:10]
+    name = 're_%s_%s' % (kind, h)
+    smt.CTX.fun(name, [STR], BOOL)
+    REGEX_PREDS[name] = (kind, pattern, int(flags))
+    return name
+
+
+REGEX_PREDS = {}
+
+
+def _re_match_like(kind):
+    def model(eng, args, kwargs, st, node):
+        pat, s = args[0], args[1]
+        flags = kwargs.get('flags', args[2] if len(args) > 2 else None)
+        p, f = _regex_key(eng, pat, flags, st)
+        if not isinstance(s, VStr):
+            raise Undecided('re.%s on %r' % (kind, s), node)
+        name = regex_pred(kind, p, f)
+        eng.trusted_used.add('stdlib:re.%s(%r, flags=%d) as the uninterpreted predicate %s' % (kind, p, f, name))
+        from .symexec import VOptSym
+        hit = eng.ctx.app(name, s.t)
+        return [(VOptSym(Not(hit), VVal(eng.ctx.fresh('match', sort_of(('val',))))), st)]
+    return model
+
+
+FUNCS[_re.match] = _re_match_like('match')
+FUNCS[_re.search] = _re_match_like('search')
+FUNCS[_re.fullmatch] = _re_match_like('fullmatch')
+
+
 @func(_re.split)
 def m_re_split(eng, args, kwargs, st, node):
     pat, s = args[0], args[1]
@@ -907,6 +970,13 @@ def sio_close(eng, args, kwargs, st, node):
 # ------------------------------------------------------------- os / warnings
 import os as _os
 import warnings as _warnings
+
+
+@func(_os.environ.get)
+def m_environ_get(eng, args, kwargs, st, node):
+    eng.trusted_used.add('stdlib:os.environ.get (external input: an unconstrained value)')
+    return [(VVal(eng.ctx.fresh('env', sort_of(('val',)))), st)]
+
 
 
 @func(_os.fspath)
